@@ -138,7 +138,9 @@ class AppArgumentParser(argparse.ArgumentParser):
         '''Convert a comma separated string to list.'''
         items = string.split(',')
         items = list([item.strip() for item in items])
-        return items
+        # 'a, b,' means a and b: an empty entry is not a pattern that
+        # matches every host name or file name.
+        return [item for item in items if item]
 
     @classmethod
     def comma_choice_list(cls, string):
